@@ -137,7 +137,9 @@ def run(repo: Repo, chk: Check) -> None:
 
     for what, uri, want in (('a single URI given as a string', 'http://node0', ['http://node0']),
                             ('a list with one URI', ['http://node0'], ['http://node0']),
-                            ('a list of three URIs', ['http://n0', 'http://n1', 'http://n2'], ['http://n0', 'http://n1', 'http://n2'])):
+                            ('a list of three URIs', ['http://n0', 'http://n1', 'http://n2'], ['http://n0', 'http://n1', 'http://n2']),
+                            # a node listed twice gets two turns per round (weighting): the rotation is over the list AS GIVEN
+                            ('a list naming one node twice', ['http://n0', 'http://n0', 'http://n1'], ['http://n0', 'http://n0', 'http://n1'])):
         def mk(uri=uri):
             import copy
             return Obj(Q, {}), [copy.deepcopy(uri)], {}
